@@ -42,6 +42,7 @@ theorem updateClient_sub (s : St) (c : Nat) (w : Wrap) (hd : Hdr) (ibc : Bool) (
   unfold updateClient
   cases w with
   | nested => exact ht
+  | storedProposal => exact ht
   | wrapped => exact ht
   | nestedWrapped => exact ht
   | top =>
@@ -71,7 +72,7 @@ theorem misbehaviour_signerSet (s : St) (c : Nat) (k : MKind) (ibc : Bool) : (mi
     cases k <;> simp only <;> repeat' split
     all_goals rfl
 
-theorem chanAck_signerSet (s : St) (ch : Nat) (ibc : Bool) : (chanAck s ch ibc).1.signerSet = s.signerSet := by
+theorem chanAck_signerSet (s : St) (ch : Nat) (w : ChanRoute) (ibc : Bool) : (chanAck s ch w ibc).1.signerSet = s.signerSet := by
   unfold chanAck
   repeat' split
   all_goals rfl
